@@ -382,10 +382,16 @@ class IrGenerator:
                 for expr_before in inp._expr_before:
                     open_blocks = self.apply(expr_before, open_blocks=open_blocks)
 
-                if ctx.at_start():
+                if (
+                    ctx.at_start()
+                    and len(open_blocks) == 1
+                    and open_blocks[0] is ctx.first_block()
+                ):
                     # special case for sequential instances with `await` as
                     # first statement. Empty first state is used to avoid
                     # delay of one tick at start of instance.
+                    # (only when the await is not nested in a branch, otherwise
+                    # the code after it would run outside of that branch)
                     new_state = ctx.first_state()
                 else:
                     new_block = ir.CodeBlock([], parent=None)
@@ -440,10 +446,16 @@ class IrGenerator:
 
             ctx = ir.StatemachineContext.get()
 
-            if ctx.at_start():
+            if (
+                ctx.at_start()
+                and len(open_blocks) == 1
+                and open_blocks[0] is ctx.first_block()
+            ):
                 # special case for sequential instances with `while` as
                 # first statement. Empty first state is used to avoid
                 # delay of one tick at start of instance.
+                # (only when the loop is not nested in a branch, otherwise
+                # its body would run outside of that branch)
                 new_state = ctx.first_state()
                 # add a Nop to mark the state as used
                 # so contained statments do not detect
